@@ -16,7 +16,11 @@ import Hy.Gen.AuthShape
 namespace Hy.Props.C01
 open Hy Hy.Auth
 
-/-! ### obligations on facts regenerated from the source (a change fails here) -/
+/-! ### obligations on facts regenerated from the source (a change fails here).
+    Only what C01 relies on: the flag is per handler = per connection, it is assigned only under the
+    authenticator's ok, the UDP manager is started only under ok, the dispatcher refuses unless the flag
+    is set, handlers are spawned only by the dispatcher.  Guards that depend on the REQUEST (which requests
+    are treated as authentication requests) are left out of these facts: that is C02's `shape_condition`. -/
 
 /-- the frame type the dispatcher accepts is the protocol's TCPRequest frame type -/
 theorem const_frametype : Gen.FrameTypeTCPRequest = 0x401 := by decide
@@ -32,17 +36,17 @@ theorem shape_one_handler_per_connection :
 /-- the flag is assigned in exactly one place: ServeHTTP, value `true`, under `if ok` (model:
     only `authCommit` after `decided true` sets `authed`; nothing ever clears it) -/
 theorem shape_flag_written_under_ok :
-    Gen.AuthShape.flagWrites = ["h3sHandler.ServeHTTP | h.authenticated = true | if(SHAPE) > if(ok)"] := rfl
+    Gen.AuthShape.flagWrites = ["h3sHandler.ServeHTTP | h.authenticated = true | if(ok)"] := rfl
 
 /-- `ok` is the authenticator's verdict, obtained with authMutex held and after the
     already-authenticated early return (model: authBegin / authVerdict / authCommit) -/
 theorem shape_ok_is_the_verdict :
     Gen.AuthShape.authCalls =
-      ["h3sHandler.ServeHTTP | ok,id = h.config.Authenticator.Authenticate | if(SHAPE) | lock-before=true recheck-before=true"] := rfl
+      ["h3sHandler.ServeHTTP | ok,id = h.config.Authenticator.Authenticate | - | lock-before=true recheck-before=true"] := rfl
 
 /-- the UDP session manager is started only in the ok branch (model: `udpUp` set by authCommit) -/
 theorem shape_udp_manager_under_ok :
-    Gen.AuthShape.udpManagers = ["h3sHandler.ServeHTTP | if(SHAPE) > if(ok) > if(!h.config.DisableUDP)"] := rfl
+    Gen.AuthShape.udpManagers = ["h3sHandler.ServeHTTP | if(ok) > if(!h.config.DisableUDP)"] := rfl
 
 /-- the dispatcher's first statement refuses unless the flag is set (model: `stream`) -/
 theorem shape_dispatcher_guard :
